@@ -368,7 +368,8 @@ def check_unsafe(run, S, inv):
     bad = [i for i in unsafe_impls if not i['trait'].startswith('bytemuck')]
     run.ob('%s:unsafe:impls' % PROP, not bad, rule='K10 unsafe census', expected='unsafe impls only of the bytemuck marker traits', found=[i['trait'] for i in bad][:5])
     unsafe_fns = [f['path'] for f in inv['fns'] if f['unsafe']]
-    run.ob('%s:unsafe:fns' % PROP, unsafe_fns == ['matrix::det_sub_proc_unsafe'], rule='K10 unsafe census', expected='the only unsafe fn is the private determinant helper', found=unsafe_fns)
+    # (making the helper safe is fine; a NEW unsafe fn is not covered by the exercised-roots argument above)
+    run.ob('%s:unsafe:fns' % PROP, set(unsafe_fns) <= {'matrix::det_sub_proc_unsafe'}, rule='K10 unsafe census', expected='no unsafe fn other than the private determinant helper', found=unsafe_fns)
 
 
 def parse_span(t):
